@@ -6,7 +6,7 @@ import string
 from typing import Any, Dict, List, Optional
 
 from .. import driver, ops
-from ..common import Ctx, b2f, f2b, import_repo, rel_close, ulp_diff
+from ..common import Ctx, b2f, f2b, import_repo, near, rel_close
 
 LEVEL = "proof"
 EXPLANATION = (
@@ -94,7 +94,7 @@ def run(ctx: Ctx) -> None:
         for xs, r in zip(tuples, driver.ask(reqs)):
             for nm in ("gmean", "hmean", "amean"):
                 iv = getattr(C, nm)(*xs)
-                if ulp_diff(b2f(r[nm]), iv) > 8:
+                if not near(b2f(r[nm]), iv):
                     ctx.disagree("mean_rules", {"rule": nm, "scales": xs}, b2f(r[nm]), iv, ["USProofs.C05.means_ordered_and_bounded"])
 
     # ---- (b) the name table
@@ -136,7 +136,7 @@ def run(ctx: Ctx) -> None:
                 if err != r["err"]:
                     ctx.disagree("apply_constraint", key, r, err or "ok", THMS)
             else:
-                if err is not None or any(ulp_diff(b2f(m), float(v)) > 8 for m, v in zip(r["ok"], res)):
+                if err is not None or any(not near(b2f(m), float(v)) for m, v in zip(r["ok"], res)):
                     ctx.disagree("apply_constraint", key, [b2f(m) for m in r["ok"]], err or list(res), THMS)
 
     # ---- (c) operations
